@@ -6,7 +6,10 @@ use ahash::AHashMap;
 use log::{debug, info, trace, warn};
 use primitive_types::U256;
 use rayon::prelude::*;
+#[cfg(not(saito_verif))]
 use tokio::sync::RwLock;
+#[cfg(saito_verif)]
+use crate::core::util::verif::RwLock;
 
 use crate::core::consensus::block::Block;
 use crate::core::consensus::blockchain::Blockchain;
